@@ -40,8 +40,50 @@ type SolveOpts struct {
 var solveSem chan struct{}
 
 func runSolver(s solverDef, input string, timeoutMs int) (string, float64, error) {
+	return runSolverCtx(context.Background(), s, input, timeoutMs)
+}
+
+type raceResult struct {
+	status string
+	solver string
+	secs   float64
+	out    string
+}
+
+// race runs the primary z3 and cvc5 concurrently and returns the first definite "unsat"
+// (cvc5 and z3 have very different strengths on these quantified goals); otherwise z3's answer.
+func race(input string, timeoutMs int, add func(float64)) raceResult {
+	ctx, cancel := context.WithCancel(context.Background())
+	defer cancel()
+	ch := make(chan raceResult, 2)
+	for _, si := range []int{0, 2} {
+		s := solvers[si]
+		go func() {
+			out, secs, err := runSolverCtx(ctx, s, input, timeoutMs)
+			add(secs)
+			st := firstWord(out)
+			if err != nil {
+				st = "timeout"
+			}
+			ch <- raceResult{st, s.name, secs, out}
+		}()
+	}
+	var first raceResult
+	for i := 0; i < 2; i++ {
+		r := <-ch
+		if r.status == "unsat" || (r.status == "sat" && r.solver == solvers[0].name) {
+			return r
+		}
+		if i == 0 || r.solver == solvers[0].name {
+			first = r
+		}
+	}
+	return first
+}
+
+func runSolverCtx(parent context.Context, s solverDef, input string, timeoutMs int) (string, float64, error) {
 	hard := time.Duration(timeoutMs+15000) * time.Millisecond
-	ctx, cancel := context.WithTimeout(context.Background(), hard)
+	ctx, cancel := context.WithTimeout(parent, hard)
 	defer cancel()
 	cmd := exec.CommandContext(ctx, s.bin, s.args(timeoutMs)...)
 	cmd.Stdin = strings.NewReader(input)
@@ -89,6 +131,26 @@ func solveFunc(key string, vs *VCSet, opts SolveOpts) float64 {
 			want = "sat"
 		}
 		body := smtHeader + vs.queryText([]*Obligation{ob}) + "(check-sat)\n"
+		if !ob.Cover {
+			r := race(body, opts.TimeoutMs, add)
+			ob.Status, ob.Solver, ob.Secs = r.status, r.solver, r.secs
+			if r.status == "unsat" {
+				return
+			}
+			if r.status == "sat" {
+				mo, _, _ := runSolver(solvers[0], body+"(get-model)\n", opts.TimeoutMs)
+				ob.Model = mo
+				return
+			}
+			if opts.Cross {
+				out, secs, err := runSolver(solvers[1], body, opts.TimeoutMs)
+				add(secs)
+				if err == nil && firstWord(out) == "unsat" {
+					ob.Status, ob.Solver, ob.Secs = "unsat", solvers[1].name, secs
+				}
+			}
+			return
+		}
 		order := []int{0, 1, 2}
 		if !opts.Cross {
 			order = []int{0}
@@ -138,12 +200,11 @@ func solveFunc(key string, vs *VCSet, opts SolveOpts) float64 {
 			if len(obs) > 1 {
 				solveSem <- struct{}{}
 				body := smtHeader + vs.queryText(obs) + "(check-sat)\n"
-				out, secs, err := runSolver(solvers[0], body, opts.TimeoutMs)
+				r := race(body, opts.TimeoutMs, add)
 				<-solveSem
-				add(secs)
-				if err == nil && firstWord(out) == "unsat" {
+				if r.status == "unsat" {
 					for _, ob := range obs {
-						ob.Status, ob.Solver, ob.Secs = "unsat", solvers[0].name, secs/float64(len(obs))
+						ob.Status, ob.Solver, ob.Secs = "unsat", r.solver, r.secs/float64(len(obs))
 					}
 					return
 				}
